@@ -42,7 +42,7 @@ def main():
     os.rmdir(wt)
     meta = {'name': name, 'property': prop, 'ran': []}
     try:
-        r = sh(['git', '-C', '/repo', 'worktree', 'add', '--detach', wt, 'HEAD'])
+        r = sh(['git', '-C', '/repo', 'worktree', 'add', '--detach', wt, os.environ.get('SEED_BASE', 'HEAD')])
         assert r.returncode == 0, r.stderr
         r = sh(['git', '-C', wt, 'apply', os.path.abspath(os.path.join(src, 'patch.diff'))])
         meta['patch_applies'] = r.returncode == 0
@@ -65,7 +65,7 @@ def main():
         caught = {}
         for c in checks:
             t = time.time()
-            r = sh(['/verif/check', c, '--tier', os.environ.get('TIER', 'quick')],
+            r = sh([os.environ.get('VERIF_HOME', '/verif') + '/check', c, '--tier', os.environ.get('TIER', 'quick')],
                    env=dict(os.environ, VERIF_REPO=wt), timeout=3000)
             sigs = [l.strip().split(' ')[0] for l in r.stdout.splitlines() if l.strip().startswith('sig=')]
             status = 'VIOLATION' if r.returncode == 1 else 'silent' if r.returncode == 0 else 'BROKEN(%d)' % r.returncode
